@@ -65,6 +65,19 @@ fn main() {
         return;
     }
     w2.watch(&root.join("single.txt"), RecursiveMode::Recursive).unwrap();
+    // a third watcher registered through a path ending in `..`: events must come back under the
+    // path as given, and an event on the watched directory itself carries exactly that path
+    let tx3 = tx.clone();
+    let mut w3 = notify::RecommendedWatcher::new(move |e| { let _ = tx3.send((3, e)); }, notify::Config::default()).unwrap();
+    w3.watch(&root.join("src/sub/.."), RecursiveMode::Recursive).unwrap();
+    let mk = |declared: PathBuf, is_dir: bool| vfs::WatcherState {
+        roots: vec![vfs::WatchRoot { canon: std::fs::canonicalize(&declared).unwrap(), declared, is_dir }],
+        handler: None,
+        dead: false,
+        closed: false,
+        queue: Default::default(),
+    };
+    let stub_watchers = vec![mk(root.join("src"), true), mk(root.join("single.txt"), false), mk(root.join("src/sub/.."), true)];
     let mut bad = 0;
     // watch() on a missing path: the error shape zinoma has to tolerate
     match w2.watch(&root.join("missing/never.txt"), RecursiveMode::Recursive) {
@@ -92,6 +105,9 @@ fn main() {
         FsOp::Write { path: "single.txt".into(), content: "s2".into() },
         FsOp::Append { path: "single.txt".into(), content: "+".into() },
         FsOp::Touch { path: "single.txt".into() },
+        FsOp::Touch { path: "src".into() },
+        FsOp::Touch { path: "src/sub".into() },
+        FsOp::Create { path: "src/sub/late.c".into(), content: "l".into() },
     ];
     std::thread::sleep(Duration::from_millis(200));
     while rx.try_recv().is_ok() {}
@@ -107,7 +123,16 @@ fn main() {
                 }
             }
         }
-        let stub: BTreeSet<(&'static str, Vec<PathBuf>)> = predicted.iter().map(|(k, p)| (class_stub(*k), p.clone())).collect();
+        // what each virtual watcher would hand to the callback (paths as that watcher reports them)
+        let mut stub: BTreeSet<(&'static str, Vec<PathBuf>)> = BTreeSet::new();
+        for w in &stub_watchers {
+            for (k, paths) in &predicted {
+                let mapped: Vec<Option<PathBuf>> = paths.iter().map(|p| vfs::reported_as(w, p)).collect();
+                if mapped.iter().any(|m| m.is_some()) {
+                    stub.insert((class_stub(*k), mapped.into_iter().zip(paths.iter()).map(|(m, p)| m.unwrap_or_else(|| p.clone())).collect()));
+                }
+            }
+        }
         // the driver sets logical mtimes with utimensat after each write: the real kernel adds a
         // metadata event for that, which the stub does not model (same path, harmless)
         let missing: Vec<_> = stub.difference(&real).collect();
